@@ -929,6 +929,44 @@ func ruleKEY8(c *Ctx) []Ob {
 	return o.list
 }
 
+// appendItemsArg: when call is orderedcode.Append, or a library function that forwards its
+// variadic parameter as the items of orderedcode.Append (func (e *encoder) append(items ...any)),
+// the argument holding the items; nil otherwise.
+func (c *Ctx) appendItemsArg(call ssa.CallInstruction) ssa.Value {
+	g := staticCallee(call)
+	if g == nil {
+		return nil
+	}
+	args := call.Common().Args
+	if g.Pkg != nil && g.Pkg.Pkg.Path() == "github.com/google/orderedcode" && g.Name() == "Append" {
+		if len(args) > 1 {
+			return args[1]
+		}
+		return nil
+	}
+	g = c.declared(g)
+	if !c.IsLib(g) || !g.Signature.Variadic() || len(g.Params) == 0 || len(args) != len(g.Params) {
+		return nil
+	}
+	last := g.Params[len(g.Params)-1]
+	forwards := false
+	allCalls(g, func(inner ssa.CallInstruction) {
+		h := staticCallee(inner)
+		if h == nil || h.Pkg == nil || h.Pkg.Pkg.Path() != "github.com/google/orderedcode" || h.Name() != "Append" || len(inner.Common().Args) < 2 {
+			return
+		}
+		for _, og := range origins(inner.Common().Args[1]) {
+			if og == ssa.Value(last) {
+				forwards = true
+			}
+		}
+	})
+	if !forwards {
+		return nil
+	}
+	return args[len(args)-1]
+}
+
 // ---------------------------------------------------------------- KEY9
 
 // KEY9: within one encoder function every orderedcode.Append whose result can
@@ -955,11 +993,11 @@ func ruleKEY9(c *Ctx) []Ob {
 				if !ok {
 					continue
 				}
-				g := staticCallee(call)
-				if g == nil || g.Pkg == nil || g.Pkg.Pkg.Path() != "github.com/google/orderedcode" || g.Name() != "Append" {
+				itemsArg := c.appendItemsArg(call)
+				if itemsArg == nil {
 					continue
 				}
-				items, ok := c.keys().sprintfArgs(call.Common().Args[1])
+				items, ok := c.keys().sprintfArgs(itemsArg)
 				if !ok {
 					continue
 				}
@@ -967,6 +1005,9 @@ func ruleKEY9(c *Ctx) []Ob {
 				reaches := false
 				for _, ret := range returnsOf(fn) {
 					if rv, ok := returnedValue(ret, 0); ok {
+						if isErrorType(rv.Type()) && c.provablyNonNil(fn, rv, ret.Block()) {
+							continue // the failure path of a call that reports only an error: no encoding is returned
+						}
 						for _, og := range origins(rv) {
 							if og == ssa.Value(call) {
 								reaches = true
@@ -1210,6 +1251,8 @@ func ruleKEY11(c *Ctx) []Ob {
 						fwd(x)
 					case *ssa.Phi:
 						fwd(x)
+					case *ssa.BinOp:
+						fwd(x)
 					case *ssa.Call:
 						if g := staticCallee(x); g != nil && g.Pkg != nil && g.Pkg.Pkg.Path() == "github.com/google/orderedcode" {
 							reaches = true
@@ -1227,6 +1270,144 @@ func ruleKEY11(c *Ctx) []Ob {
 	}
 	if n == 0 {
 		o.add(OK, "time keys", "-", "no index key is derived from (time.Time).UnixNano")
+	}
+	return o.list
+}
+
+// ---------------------------------------------------------------- KEY12
+
+// KEY12: NaN has one place in the order and one key. Numbers are keyed by the
+// order-preserving encoding of their float64 bits, under which a NaN sorts
+// after +Inf (positive NaN) or before -Inf (sign bit set), and every payload
+// is a key of its own; the comparison cannot use <, > or == on a NaN. So:
+// (a) the float comparator, evaluated with every ordering test of a NaN false
+// and math.IsNaN injected, answers "greater" for a NaN against a number,
+// "smaller" for a number against a NaN and "equal" for two NaNs - the place
+// of the positive quiet NaN's key; (b) the value handed to the key encoder for
+// a number is replaced by math.NaN() wherever math.IsNaN found it to be one.
+func ruleKEY12(c *Ctx) []Ob {
+	o := newObs(c, "KEY12")
+	// (a) the comparator: a function of two float64 returning int that calls math.IsNaN
+	var cmpF *ssa.Function
+	for _, fn := range c.LibFuncs {
+		if c.pkgRel(fn) != "internal" || fn.Parent() != nil || len(fn.Params) != 2 || fn.Signature.Results().Len() != 1 {
+			continue
+		}
+		isF := func(t types.Type) bool {
+			b, ok := t.Underlying().(*types.Basic)
+			return ok && b.Kind() == types.Float64
+		}
+		if !isF(fn.Params[0].Type()) || !isF(fn.Params[1].Type()) || !isIntType(fn.Signature.Results().At(0).Type()) {
+			continue
+		}
+		cmpF = fn
+	}
+	if cmpF == nil {
+		o.add(UNDECIDED, "float comparator", "-", "no function (float64, float64) int found in package internal")
+	} else {
+		pos := relPath(c, cmpF.Pos())
+		for _, cs := range []struct {
+			n1, n2 bool
+			want   int
+			name   string
+		}{{true, false, 1, "NaN vs number"}, {false, true, -1, "number vs NaN"}, {true, true, 0, "NaN vs NaN"}} {
+			cs := cs
+			te := c.newTagEval()
+			te.binopHook = func(bo *ssa.BinOp) (aval, bool) {
+				if b, ok := bo.X.Type().Underlying().(*types.Basic); ok && b.Kind() == types.Float64 {
+					switch bo.Op {
+					case token.LSS, token.GTR, token.EQL, token.LEQ, token.GEQ:
+						return boolConst(false), true
+					case token.NEQ:
+						return boolConst(true), true
+					}
+				}
+				return aval{}, false
+			}
+			te.callHook = func(call *ssa.Call) ([]aval, bool) {
+				if calleeFullName(call) != "math.IsNaN" {
+					return nil, false
+				}
+				for _, og := range origins(call.Call.Args[0]) {
+					switch og {
+					case ssa.Value(cmpF.Params[0]):
+						return []aval{boolConst(cs.n1)}, true
+					case ssa.Value(cmpF.Params[1]):
+						return []aval{boolConst(cs.n2)}, true
+					}
+				}
+				return nil, false
+			}
+			outs := te.Eval(cmpF, make([]aval, 2), 0)
+			key := c.fname(cmpF) + "/" + cs.name
+			if len(outs) != 1 || outs[0].Panic {
+				o.add(UNDECIDED, key, pos, "the outcome is not decided by the ordering tests being false and math.IsNaN (%d outcomes)", len(outs))
+				continue
+			}
+			r, ok := constIntOf(outs[0].Vals[0])
+			sign := 0
+			if r > 0 {
+				sign = 1
+			} else if r < 0 {
+				sign = -1
+			}
+			switch {
+			case !ok:
+				o.add(UNDECIDED, key, pos, "the result is not a constant")
+			case sign != cs.want:
+				o.add(VIOLATED, key, pos, "the comparator answers %d, but the key of a NaN (the encoding of the positive quiet NaN's bits) sorts after the key of every other number: an index on the field places the NaN document at the other end of the numbers, so range scans and index-ordered sorts disagree with the filter (x < 2 loses the NaN document once x is indexed)", r)
+			default:
+				o.add(OK, key, pos, "answers %d, the place of the NaN key", r)
+			}
+		}
+	}
+	// (b) the key encoder's number path canonicalises NaN
+	n := 0
+	encReach := c.staticReach(c.lookupFunc("internal", "OrderedCode"))
+	for _, fn := range c.LibFuncs {
+		if c.pkgRel(fn) != "internal" || fn.Parent() != nil {
+			continue
+		}
+		// functions whose result is handed to orderedcode.Append by a caller and that convert numbers
+		toF := false
+		allCalls(fn, func(ci ssa.CallInstruction) {
+			if g := staticCallee(ci); g != nil && c.declared(g) == c.lookupFunc("util", "ToFloat64") {
+				toF = true
+			}
+		})
+		if !toF || !encReach[fn] {
+			continue
+		}
+		n++
+		key := c.fname(fn) + "/NaN has one key"
+		nanEdges := guardEdges(fn, func(cond ssa.Value, branch bool) bool {
+			call, ok := cond.(*ssa.Call)
+			return ok && calleeFullName(call) == "math.IsNaN" && branch
+		})
+		okCanon := false
+		for _, ret := range returnsOf(fn) {
+			if !guardedBy(fn, ret.Block(), nanEdges) {
+				continue
+			}
+			if rv, ok := returnedValue(ret, 0); ok {
+				for _, og := range origins(rv) {
+					if mi, ok := og.(*ssa.MakeInterface); ok {
+						og = mi.X
+					}
+					if call, ok := og.(*ssa.Call); ok && calleeFullName(call) == "math.NaN" {
+						okCanon = true
+					}
+				}
+			}
+		}
+		if okCanon {
+			o.add(OK, key, relPath(c, fn.Pos()), "a number found to be NaN is keyed as math.NaN()")
+		} else {
+			o.add(VIOLATED, key, relPath(c, fn.Pos()), "numbers are keyed by their float64 bits without NaNs being replaced by one representative: the comparison treats all NaNs as equal, but NaNs with different sign or payload get different keys (one of them before -Inf), so equal values have unequal keys and Eq(NaN) through an index finds only the bit pattern of the operand")
+		}
+	}
+	if n == 0 {
+		o.add(UNDECIDED, "number keys", "-", "the function converting numbers for the key encoder was not found")
 	}
 	return o.list
 }
